@@ -1,14 +1,15 @@
 package updog
 
 import (
+	"encoding/binary"
 	"errors"
 	"fmt"
-	"math/bits"
 	"sort"
 	"strings"
 	"time"
 
 	"github.com/RoaringBitmap/roaring"
+	"github.com/cespare/xxhash/v2"
 )
 
 // Query describes a count query to execute on an index. updog allows you to run
@@ -255,7 +256,7 @@ func (e *ExprEqual) String() string {
 }
 
 func (e *ExprEqual) cacheKey() uint64 {
-	return getValueIndex(e.Column, e.Value)
+	return combineCacheKeys(maskEqual, getValueIndex(e.Column, e.Value))
 }
 
 type ExprNot struct {
@@ -287,13 +288,31 @@ func (e *ExprNot) String() string {
 }
 
 const (
-	maskNot = 0x87A9CD14CAEB50EB
-	maskAnd = 0xF9F1F5ADCB67A077
-	maskOr  = 0xBFB85A99B03E78E7
+	maskEqual = 0x3C6EF372FE94F82B
+	maskNot   = 0x87A9CD14CAEB50EB
+	maskAnd   = 0xF9F1F5ADCB67A077
+	maskOr    = 0xBFB85A99B03E78E7
 )
 
+// combineCacheKeys derives the cache key of an expression node from the mask
+// identifying its operator and the cache keys of its operands, in order. The
+// operator and the complete operand list go through the hash function, so that
+// (up to hash collisions) two expressions only share a key if they have the
+// same structure.
+func combineCacheKeys(mask uint64, keys ...uint64) uint64 {
+	buf := make([]byte, 8*(len(keys)+1))
+
+	binary.BigEndian.PutUint64(buf, mask)
+
+	for i, key := range keys {
+		binary.BigEndian.PutUint64(buf[8*(i+1):], key)
+	}
+
+	return xxhash.Sum64(buf)
+}
+
 func (e *ExprNot) cacheKey() uint64 {
-	return bits.RotateLeft64(e.Expr.cacheKey(), 1) ^ maskNot
+	return combineCacheKeys(maskNot, e.Expr.cacheKey())
 }
 
 type ExprAnd struct {
@@ -344,12 +363,12 @@ func (e *ExprAnd) String() string {
 }
 
 func (e *ExprAnd) cacheKey() uint64 {
-	key := uint64(maskAnd)
+	keys := make([]uint64, 0, len(e.Exprs))
 	for _, e := range e.Exprs {
-		key = key ^ bits.RotateLeft64(e.cacheKey(), 1)
+		keys = append(keys, e.cacheKey())
 	}
 
-	return key
+	return combineCacheKeys(maskAnd, keys...)
 }
 
 type ExprOr struct {
@@ -400,10 +419,10 @@ func (e *ExprOr) String() string {
 }
 
 func (e *ExprOr) cacheKey() uint64 {
-	key := uint64(maskOr)
+	keys := make([]uint64, 0, len(e.Exprs))
 	for _, e := range e.Exprs {
-		key = key ^ bits.RotateLeft64(e.cacheKey(), 1)
+		keys = append(keys, e.cacheKey())
 	}
 
-	return key
+	return combineCacheKeys(maskOr, keys...)
 }
